@@ -32,7 +32,9 @@ int main(void){
     sslKeys_t *sk,*ck; ssl_t *srv=NULL,*cli=NULL; sslSessOpts_t so,co;
     psCipher16_t suites[1]={0x009C};
     unsigned char *m, out[256], fin[64], rec[64]; int32 l, rc, n, round;
-    matrixSslOpen(); sk=loadServerKeys(0); ck=loadClientKeys(0);
+    matrixSslOpen();
+    if (controlHandshakes(v_tls_1_2, 0x009C) < 0) { printf("CONTROL FAILED\n"); return 3; }
+    sk=loadServerKeys(0); ck=loadClientKeys(0);
     memset(&so,0,sizeof(so)); memset(&co,0,sizeof(co));
     matrixSslSessOptsSetServerTlsVersionRange(&so,v_tls_1_2,v_tls_1_2);
     matrixSslSessOptsSetClientTlsVersionRange(&co,v_tls_1_2,v_tls_1_2);
@@ -40,6 +42,20 @@ int main(void){
     matrixSslNewClientSession(&cli,ck,NULL,suites,1,certCb,NULL,NULL,NULL,&co);
     for (round=0; round<2; round++){ m=takeOut(cli,&l,NULL); rc=feed(srv,m,l,NULL,NULL); m=takeOut(srv,&l,NULL); if(round==0) rc=feed(cli,m,l,NULL,NULL); }
     n=gcm12Open(srv->sec.writeKey,srv->sec.writeIV,m+6,fin);
+    if (n == 16) {
+        /* control: a Finished fragmented over two records AFTER the CCS is legal and must keep working */
+        ssl_t *srv2=NULL,*cli2=NULL; unsigned char *m2, fin2[64]; int32 l2;
+        matrixSslNewServerSession(&srv2,sk,NULL,&so);
+        matrixSslNewClientSession(&cli2,ck,NULL,suites,1,certCb,NULL,NULL,NULL,&co);
+        for (round=0; round<2; round++){ m2=takeOut(cli2,&l2,NULL); rc=feed(srv2,m2,l2,NULL,NULL); m2=takeOut(srv2,&l2,NULL); if(round==0) rc=feed(cli2,m2,l2,NULL,NULL); }
+        gcm12Open(srv2->sec.writeKey,srv2->sec.writeIV,m2+6,fin2);
+        rc=feed(cli2,m2,6,NULL,NULL);
+        n=gcm12Seal(srv2->sec.writeKey,srv2->sec.writeIV,0,22,fin2,6,out); rc=feed(cli2,out,n,NULL,NULL);
+        n=gcm12Seal(srv2->sec.writeKey,srv2->sec.writeIV,1,22,fin2+6,10,out); rc=feed(cli2,out,n,NULL,NULL);
+        if (rc != MATRIXSSL_HANDSHAKE_COMPLETE) { printf("CONTROL FAILED: fragmented Finished after CCS refused (rc %d)\n", rc); return 3; }
+        printf("CONTROL OK: CCS, Finished[0..5], Finished[6..15] (both protected) completes the handshake\n");
+        n = 16;
+    }
     printf("finished pt len %d type %d\n", n, fin[0]);
     rec[0]=22;rec[1]=3;rec[2]=3;rec[3]=0;rec[4]=6; memcpy(rec+5,fin,6);
     rc=feed(cli,rec,11,NULL,NULL); printf("plaintext first 6 bytes of Finished BEFORE CCS: rc=%d hs=%d err=%d\n", rc, cli->hsState, !!(cli->flags&SSL_FLAGS_ERROR));
@@ -49,5 +65,5 @@ int main(void){
     if (rc == MATRIXSSL_HANDSHAKE_COMPLETE && matrixSslHandshakeIsComplete(cli)) {
         printf("VIOLATION: TLS 1.2 client completed the handshake with a Finished message that started (in plaintext) before ChangeCipherSpec\n");
         return 1; }
-    printf("no violation\n");
+    printf("OK: handshake did not complete (alert %d)\n", cli->err);
     return 0; }
